@@ -81,7 +81,7 @@
 From stdpp Require Import gmap.
 From Coq Require Import NArith.
 From OC Require Import Base.Bytes Model.P2Pure Model.Proto2 Model.P2Inst Model.Proto2Queue Model.P2QInst
-     Proofs.P2Base Proofs.P2Phases Proofs.P2_Queue Proofs.P2_QueueWaitA Proofs.P2_QueueWitness.
+     Proofs.P2Base Proofs.P2Phases Proofs.P2_Cursor Proofs.P2_Queue Proofs.P2_QueueWaitA Proofs.P2_QueueWaitC Proofs.P2_QueueWitness.
 Open Scope N_scope.
 
 Section C09.
@@ -101,6 +101,8 @@ Section C09.
   Notation tokens := (@tokens V Ch Req D candidate candidate_rb rollback_of overlay commit_merge payload record_applied
                               touched restore resync_payload doc_ok stamp v_empty d_empty ch_empty).
   Notation forward := (@forward V Ch Req D).
+  Notation qstp := (@qstep V Ch Req D candidate candidate_rb rollback_of overlay commit_merge payload record_applied
+                            touched restore resync_payload doc_ok dev_apply stamp v_empty d_empty ch_empty).
 
   Theorem C09_queue_runs_are_runs : forall (s : @qworld V Ch Req D), qreach s -> reach (qw s).
   Proof. exact (qreach_reach candidate candidate_rb rollback_of overlay commit_merge payload record_applied touched restore
@@ -135,6 +137,24 @@ Section C09.
   Proof. exact (wait_b_reach candidate candidate_rb rollback_of overlay commit_merge payload record_applied touched restore
                   resync_payload doc_ok dev_apply stamp v_empty d_empty ch_empty). Qed.
 
+  (* wait (c), PARTIAL (one delivery, from every reachable queued world): the delivery that makes Committed.Index the
+     PrevIndex of a stored proposal (t, i) - which opens its Validate / Abort guard - leaves (t, i) pending, through the
+     mover's hand-over to its successor; the ONE exception is exhibited: the mover is the predecessor itself in Abort
+     IN_PROGRESS with Applied.Index still behind its own PrevIndex (that branch of reconcileAbort moves Committed.Index
+     and returns without a re-queue; the successor is then woken by the configuration event only when it is the proposal
+     Proposed.Index names, or later by the re-queue of its own successor).  Not yet an invariant of all queued worlds. *)
+  Theorem C09_wait_c_delivery_partial : forall (s : @qworld V Ch Req D) n o c t i (P : @prop Ch),
+    qreach s -> nth_error (queue s) n = Some c ->
+    props (qw s) !! (t, i) = Some P -> p_prev P <> 0 ->
+    @committed_of V Ch Req D (qw s) t <> p_prev P ->
+    @committed_of V Ch Req D (qw (qstp s (QDeliver n o))) t = p_prev P ->
+    In (CtlProp (t, i)) (queue (qstp s (QDeliver n o))) \/
+    exists (Q : @prop Ch), props (qw s) !! (t, p_prev P) = Some Q /\ c = CtlProp (t, p_prev P) /\ p_next Q = i /\
+      p_apply Q = None /\ p_abort Q = Some Doing /\
+      @committed_of V Ch Req D (qw s) t = p_prev Q /\ @applied_of V Ch Req D (qw s) t <> p_prev Q.
+  Proof. exact (committed_opens_wakes candidate candidate_rb rollback_of overlay commit_merge payload record_applied touched restore
+                  resync_payload doc_ok dev_apply stamp v_empty d_empty ch_empty). Qed.
+
   Theorem C09_fixpoint_partial2 : forall (s : @qworld V Ch Req D),
     qreach s ->
     tokens_rest candidate candidate_rb rollback_of overlay commit_merge payload record_applied touched restore resync_payload doc_ok
@@ -163,6 +183,7 @@ Print Assumptions C09_fixpoint_partial.
 Print Assumptions C09_writes_wake_owners.
 Print Assumptions C09_wait_a_has_token.
 Print Assumptions C09_wait_b_has_token.
+Print Assumptions C09_wait_c_delivery_partial.
 Print Assumptions C09_fixpoint_partial2.
 Print Assumptions C09_terminates_partial.
 Print Assumptions C09_rank_bounds.
